@@ -31,7 +31,7 @@ Print Assumptions C02_locus_sense_meaning.
 (* the one statement for all mnemonics: whenever the Spec reads the card as the
    surface ms (Spec.mcnp_surface: equation m_f, kept sheet m_sheet) and the
    guards of [admissible] hold (P: non-zero normal / three points clear of the
-   code's epsilons; K: t^2 >= 0; SQ: G <= 0; X/Y/Z cone form: radii >= 0),
+   code's epsilons; K: t^2 >= 0; X/Y/Z cone form: radii >= 0),
    the reference -s selects exactly the points of negative MCNP sense, +s
    exactly those of positive sense, and the first emitted surface has the zero
    set of the MCNP equation.  card_correct, neg_sense, pos_sense, admissible:
@@ -147,10 +147,10 @@ Proof.
 Qed.
 Print Assumptions C02_K_sheet_locus_sense.
 
-(* GQ passes through; SQ expands to the same polynomial when G <= 0 *)
+(* GQ passes through; SQ expands to the same polynomial (k = 1, no guard on G) *)
 Theorem C02_GQ_SQ_locus_sense :
   (forall A B C D E F G H J K : R, locus_sense (convert_card RS M_GQ [A; B; C; D; E; F; G; H; J; K]) (fM_gq RS A B C D E F G H J K)) /\
-  (forall A B C D E F G x0 y0 z0 : R, G <= 0 -> locus_sense (convert_card RS M_SQ [A; B; C; D; E; F; G; x0; y0; z0]) (fM_sq RS A B C D E F G x0 y0 z0)).
+  (forall A B C D E F G x0 y0 z0 : R, locus_sense (convert_card RS M_SQ [A; B; C; D; E; F; G; x0; y0; z0]) (fM_sq RS A B C D E F G x0 y0 z0)).
 Proof.
   repeat apply conj.
   - exact gq_locus_sense.
@@ -254,49 +254,19 @@ Theorem C02_orient_plane_ok : forall n p1 : vec (T:=R),
 Proof. exact orient_plane_ok. Qed.
 Print Assumptions C02_orient_plane_ok.
 
-(* ---------- SQ: the sign rule of convert_special_quadric ---------- *)
-(* the quantity tested by the code is G itself, so every SQ card with G > 0 is
-   emitted with the two senses exchanged (same zero set): C02_GQ_SQ_locus_sense
-   cannot be extended to G > 0 *)
-Theorem C02_sq_positive_g_flipped :
-  (forall a b c d e f g x y z : R,
-     eval_quadric RS (sq_expand RS a b c d e f g x y z) (x, y, z) = Ok g) /\
-  (forall A B C D E F G x0 y0 z0 : R, 0 < G ->
-     exists c, convert_card RS M_SQ [A; B; C; D; E; F; G; x0; y0; z0] = Ok c /\
-       forall p, (neg_coll c p <-> 0 < fM_sq RS A B C D E F G x0 y0 z0 p) /\
-                 (pos_coll c p <-> fM_sq RS A B C D E F G x0 y0 z0 p < 0)).
-Proof.
-  split; [exact sq_test_value|].
-  intros A B C D E F G x0 y0 z0 HG.
-  exact (locus_flipped_regions _ _ (sq_positive_g_flipped A B C D E F G x0 y0 z0 HG)).
-Qed.
-Print Assumptions C02_sq_positive_g_flipped.
-
-(* independent of how QUAD is read: the same surface written as SQ with G > 0
-   and as GQ with the expanded coefficients (identical polynomials, hence
-   identical MCNP sense) is converted into opposite regions *)
-Theorem C02_sq_gq_inconsistent : forall A B C D E F G x0 y0 z0 : R,
-  0 < G ->
-  exists K,
-    (forall p, fM_gq RS A B C 0 0 0 (2 * D - 2 * A * x0) (2 * E - 2 * B * y0) (2 * F - 2 * C * z0) K p
-               = fM_sq RS A B C D E F G x0 y0 z0 p) /\
-    exists csq cgq,
-      convert_card RS M_SQ [A; B; C; D; E; F; G; x0; y0; z0] = Ok csq /\
-      convert_card RS M_GQ [A; B; C; 0; 0; 0; 2 * D - 2 * A * x0; 2 * E - 2 * B * y0;
-                            2 * F - 2 * C * z0; K] = Ok cgq /\
-      forall p, (neg_coll csq p <-> pos_coll cgq p) /\ (pos_coll csq p <-> neg_coll cgq p).
-Proof. exact sq_gq_inconsistent. Qed.
-Print Assumptions C02_sq_gq_inconsistent.
-
-(* witness: SQ -1 -1 -1 0 0 0 1 0 0 0 (the unit sphere written with G = +1):
-   the origin has positive MCNP sense and lies in the region selected by -s *)
-Theorem C02_sq_positive_g_refuted :
-  exists prm c p,
-    convert_card RS M_SQ prm = Ok c /\
-    mcnp_surface RS M_SQ prm = Some (mkMsurf (fM_sq RS (-1) (-1) (-1) 0 0 0 1 0 0 0) None) /\
-    0 < fM_sq RS (-1) (-1) (-1) 0 0 0 1 0 0 0 p /\ neg_coll c p.
-Proof. exact sq_positive_g_refuted. Qed.
-Print Assumptions C02_sq_positive_g_refuted.
+(* ---------- SQ and GQ agree ---------- *)
+(* an SQ card and the GQ card with the expanded coefficients are converted to
+   the same QUAD (and have the same MCNP equation) *)
+Theorem C02_sq_gq_consistent : forall A B C D E F G x0 y0 z0 : R,
+  convert_card RS M_SQ [A; B; C; D; E; F; G; x0; y0; z0] =
+  convert_card RS M_GQ [A; B; C; 0; 0; 0; 2 * D - 2 * A * x0; 2 * E - 2 * B * y0; 2 * F - 2 * C * z0;
+                        A * (x0 * x0) + B * (y0 * y0) + C * (z0 * z0)
+                        - 2 * (D * x0 + E * y0 + F * z0) + G] /\
+  forall p, fM_gq RS A B C 0 0 0 (2 * D - 2 * A * x0) (2 * E - 2 * B * y0) (2 * F - 2 * C * z0)
+                  (A * (x0 * x0) + B * (y0 * y0) + C * (z0 * z0) - 2 * (D * x0 + E * y0 + F * z0) + G) p
+            = fM_sq RS A B C D E F G x0 y0 z0 p.
+Proof. exact sq_gq_consistent. Qed.
+Print Assumptions C02_sq_gq_consistent.
 
 (* ---------- the conversion functions for ANY frame (all branches) ---------- *)
 (* surf_is s f: the TRIPOLI-4 equation of s is k * f for some k > 0.
